@@ -26,6 +26,11 @@ var modeName = [...]string{"float64", "json.Number"}
 
 // decodeDoc decodes JSON text in the given mode.
 func decodeDoc(text string, mode int) interface{} {
+	if mode == modeNumber {
+		// 1e308 in a document text stands for "a number at the edge": under UseNumber the
+		// decoder also accepts spellings that do not fit float64 at all, which is what is wanted there
+		text = strings.ReplaceAll(text, "1e308", "1e400")
+	}
 	dec := json.NewDecoder(strings.NewReader(text))
 	if mode == modeNumber {
 		dec.UseNumber()
@@ -164,7 +169,7 @@ type docSet struct {
 }
 
 func newDocSet(spec gen.DocSpec, modes []int) *docSet {
-	base := gen.Docs(spec)
+	base := append(gen.Docs(spec), gen.WideDocs()...)
 	ds := &docSet{modes: modes}
 	for _, d := range base {
 		ds.text = append(ds.text, gen.JSON(d))
@@ -307,6 +312,7 @@ func (j *productJob) RunUnit(i int, c *run.Ctx) {
 	}
 	for _, m := range modes {
 		for di := 0; di < j.ds.n(); di++ {
+			c.Tick()
 			doc := j.ds.docs[m][di]
 			var st *spec.Stepper
 			var pre spec.State
